@@ -235,6 +235,11 @@ structure CodeS where
   name : String
   fields : List MemberS
   ctor : List MemberS
+  /-- the modifier words written in front of every field, one entry per field (`"final"`, `""`); `[]` where the target's
+      skeleton does not record them -/
+  fmods : List String := []
+  /-- the accessors declared for the fields (Java getters), in declaration order -/
+  methods : List MethodS := []
 deriving Repr, DecidableEq, Inhabited
 
 structure DeclS where
@@ -250,6 +255,9 @@ structure DeclS where
   methods : List MethodS
   items : List String
   codes : List CodeS
+  /-- the modifier words written in front of every field, one entry per field (`"final"`, `""`); `[]` where the target's
+      skeleton does not record them -/
+  fmods : List String := []
 deriving Repr, DecidableEq, Inhabited
 
 def DeclS.empty : DeclS := { kind := "none", name := "", scope := "", mods := [], fields := [], ctor := [], methods := [], items := [], codes := [] }
